@@ -40,6 +40,9 @@ CLAIMS = {
  'C12': dict(
    text='Per-protocol clauses proved so far: ARP op != 1, ICMP type != 8, ICMPv6 type not in {128,135} or code != 0, TCP flags == SYN|ACK or RST or bare ACK => no reply (iff postconditions of the responders).',
    note='PARTIAL: DNS QR=1, STUN class, SMB reply flag, RPC reply and the reflection-chain bound are not yet under contract'),
+ 'C18': dict(
+   text='ssh_parse is proved (loop invariant, lexicographic termination measure for the re-read in state LF) to compute exactly the reference automaton ssh_run written from RFC 4253 4.2; ssh::repl answers iff that automaton ends in EOB and then with exactly "SSH-2.0-1\\r\\n". Lemmas over ssh_run: every string "SSH-" (digit|.)* "-" software [SP comment] CR LF (software without SP/CR, comment without CR) is accepted; strings without a CR LF pair or not starting "SSH-" are never accepted; run(a++b) = run(run(a), b). ghost::repl is proved to return "Gh0st" ++ le32(total length) ++ le32(1) ++ zlib([0]) with the declared total equal to the frame length.',
+   note='gray zone left unconstrained (empty software, lone CR inside software/comment, which the code tolerates); that the leading bytes are SSH-2.0/SSH-1.99 is the dispatcher\'s part (C10); flate2 is an assumed contract (output inflates to the input; length bound); byte2str (log rendering) trusted'),
  'C20': dict(
    text='Ghost event log threaded through every layer function (World parameter): each appends a well-nested account recv . inner . (send|drop) of its own layer, terminal verb send iff it returns a reply, logged packet bytes are the request / the reply; proved per function and composed up to masscanned::reply.',
    note='MetaLogger is a shim (assumed to forward each event once); console/logfmt line syntax not yet under contract'),
